@@ -422,6 +422,10 @@ def getterBytes (u : Url) (g : String) : List Nat :=
   | "host" => getHost u | "hostname" => getHostname u | "port" => getPort u | "pathname" => pathText u
   | "search" => getSearch u | "hash" => getHash u | _ => getPath u
 
+/-- the second-to-last element (the last one of a one-element list) -/
+def secondToLast {α : Type} (l : List α) : Option α :=
+  if l.length ≥ 2 then l[l.length - 2]? else l.getLast?
+
 def rewriteAlias (st : St) (toks : List String) : List String :=
   match toks with
   | ["aset", slot, setter, getter] =>
@@ -433,6 +437,17 @@ def rewriteAlias (st : St) (toks : List String) : List String :=
     | some u => ["parse", slot, "8", unitsStr (serialize u), "-"]
     | none => ["dump", slot]
   | ["aparseb", slot, enc, units] => ["parse", slot, enc, units, "s" ++ slot]
+  | ["aparsebg", slot, getter] =>
+    match st.objs[slot.toNat!]!.url with
+    | some u => ["parse", slot, "8", unitsStr (getterBytes u getter), "s" ++ slot]
+    | none => ["dump", slot]
+  | ["aparsesp", slot, enc, name] =>     -- the generator calls `sp <slot> get` first, so the params object exists
+    match st.objs[slot.toNat!]!.url, st.objs[slot.toNat!]!.sp with
+    | some _, some p =>
+      match p.get (makeString (parseEnc enc) (parseUnits name)) with
+      | some v => ["parse", slot, "8", unitsStr v, "-"]
+      | none => ["dump", slot]
+    | _, _ => ["dump", slot]
   | ["sp", slot, "aparse", enc, name] =>
     match (st.objs[slot.toNat!]!.searchParams).sp with
     | some p =>
@@ -448,6 +463,25 @@ def rewriteAlias (st : St) (toks : List String) : List String :=
     match st.params[slot.toNat!]!.list with
     | (n, v) :: _ => ["psp", slot, "append", "8", unitsStr n, "8", unitsStr v]
     | [] => ["psp", slot, "size"]
+  | ["psp", slot, "aset2"] =>     -- name = the second-to-last pair's name (a duplicate that is erased while names are still compared)
+    match st.params[slot.toNat!]!.list, secondToLast st.params[slot.toNat!]!.list with
+    | (_, v) :: _, some (n, _) => ["psp", slot, "set", "8", unitsStr n, "8", unitsStr v]
+    | _, _ => ["psp", slot, "size"]
+  | ["psp", slot, "adel"] =>
+    match secondToLast st.params[slot.toNat!]!.list with
+    | some (n, _) => ["psp", slot, "del", "8", unitsStr n]
+    | none => ["psp", slot, "size"]
+  | ["psp", slot, "adel2"] =>
+    match st.params[slot.toNat!]!.list.getLast? with
+    | some (n, v) => ["psp", slot, "del2", "8", unitsStr n, "8", unitsStr v]
+    | none => ["psp", slot, "size"]
+  | ["sp", slot, "aset2"] =>
+    match (st.objs[slot.toNat!]!.searchParams).sp with
+    | some p =>
+      match p.list, secondToLast p.list with
+      | (_, v) :: _, some (n, _) => ["sp", slot, "set", "8", unitsStr n, "8", unitsStr v]
+      | _, _ => ["sp", slot, "size"]
+    | none => ["sp", slot, "size"]
   | ["psp", slot, "aset"] =>
     match st.params[slot.toNat!]!.list, st.params[slot.toNat!]!.list.getLast? with
     | (n, _) :: _, some (_, v) => ["psp", slot, "set", "8", unitsStr n, "8", unitsStr v]
